@@ -98,7 +98,7 @@ def run_loop(c):
         except Exception as e:
             raise Violation("%s: must_be_refined raised %s: %s" % (what, type(e).__name__, e), "must-raised")
         try:
-            new_alloc = alloc.refine(t, levels)
+            new_alloc = alloc.refine(t) if levels == 1 and rep % 2 == 0 else alloc.refine(t, levels)  # (default: one level)
         except Exception as e:
             raise Violation("%s: refine raised %s: %s" % (what, type(e).__name__, e), "refine-raised")
         new = A.snapshot(new_alloc)
@@ -225,9 +225,9 @@ def loop_s(draw):
 
 def subchecks():
     return [
-        Sub("loop", run_loop, strategy=loop_s(), n_quick=4000, n_thorough=100000,
+        Sub("loop", run_loop, strategy=loop_s(), n_quick=4000, n_thorough=100000, fuzz_thorough=2000,
             required=("empty-map", "ratio==threshold", "stable", "loop")),
-        Sub("uniform", run_uniform, strategy=A.alloc_case(), n_quick=2000, n_thorough=50000, required=("uniform-split",)),
-        Sub("grid", run_grid, strategy=A.alloc_case(), n_quick=4000, n_thorough=100000,
+        Sub("uniform", run_uniform, strategy=A.alloc_case(), n_quick=2000, n_thorough=50000, fuzz_thorough=1000, required=("uniform-split",)),
+        Sub("grid", run_grid, strategy=A.alloc_case(), n_quick=4000, n_thorough=100000, fuzz_thorough=2000,
             required=("x-boundaries!=y-boundaries", "more-y-than-x", "sliver-exception-used", "cut-applied")),
     ]
